@@ -66,15 +66,20 @@ def _variants(tree, d):
     from sqlglot.optimizer.qualify import qualify
 
     yield "parsed", tree
+    # the variants are only INPUTS of the serialisation routes: whatever the annotator / qualifier do with a dialect-specific
+    # statement (including internal errors, which are other properties' subject) must not stop this check
     try:
-        yield "annotated", annotate_types(tree.copy(), dialect=d or None)
-    except SqlglotError:
-        pass
+        annotated = annotate_types(tree.copy(), dialect=d or None)
+    except (SqlglotError, RecursionError, Exception):
+        annotated = None
+    if annotated is not None:
+        yield "annotated", annotated
     try:
-        q = qualify(tree.copy(), schema=SCHEMA, dialect=d or None, validate_qualify_columns=False)
-        yield "qualified", annotate_types(q, schema=SCHEMA, dialect=d or None)
-    except SqlglotError:
-        pass
+        q = annotate_types(qualify(tree.copy(), schema=SCHEMA, dialect=d or None, validate_qualify_columns=False), schema=SCHEMA, dialect=d or None)
+    except (SqlglotError, RecursionError, Exception):
+        q = None
+    if q is not None:
+        yield "qualified", q
 
 
 def _nontrivial(tree) -> bool:
@@ -130,7 +135,13 @@ def check_tree(t, d, other, label):
                 continue  # same root cause as dump-not-json? no: pickle uses dump but not json; report separately
             fails.append((f"{name}-raises:{type(e).__name__}", f"{label}: {e}"))
             continue
-        if not (r == t):
+        try:
+            equal = r == t
+        except Exception as e:
+            # e.g. a list nested in a list argument makes the tree unhashable: then it cannot be compared with its reproduction at all
+            fails.append((f"eq-raises:{type(e).__name__}", f"{label}: comparing the reproduction with the original raised {type(e).__name__}: {e}"))
+            break
+        if not equal:
             fails.append((f"{name}:not-equal", f"{label}: result != original"))
             continue
         fp2 = F.fingerprint(r, deep=True)
@@ -185,15 +196,43 @@ def check_case(case, res=None):
     return fails
 
 
+CORPUS_PARTS = 8
+
+
+def corpus_sweep(part, res, only_bucket=None):
+    """EXHAUSTIVE stream: every statement of the repository's fixture corpus (see C05), parsed in its own dialect, through every
+    serialisation route. Dialect-specific trees carry the odd argument shapes (raw ints and None inside lists, nested lists, empty
+    lists, dialect objects) that the core grammar never produces."""
+    from vp.props import c05
+
+    n = 0
+    for i, (d, text) in enumerate(c05.corpus()):
+        if i % CORPUS_PARTS != part:
+            continue
+        case = {"sql": text, "dialects": [d], "kind": "fixture", "other": ""}
+        n += 1
+        for b, det in check_case(case, res):
+            b = "fixture|" + b
+            if only_bucket is None or b == only_bucket:
+                res.fail(b, dict(case, fixture=True), det)
+    res.extra["fixture_statements"] = res.extra.get("fixture_statements", 0) + n
+
+
 def plan(tier):
-    return [{"n": 60, "depth": 3}] * 16 if tier == "quick" else [{"n": 1200, "depth": 3}] * 32 + [{"n": 500, "depth": 5}] * 16
+    sweep = [{"kind": "corpus", "part": i} for i in range(CORPUS_PARTS)]
+    return sweep + ([{"n": 60, "depth": 3}] * 16 if tier == "quick" else [{"n": 1200, "depth": 3}] * 32 + [{"n": 500, "depth": 5}] * 16)
 
 
 def run_shard(spec, seed, res, only_bucket=None):
+    if spec.get("kind") == "corpus":
+        corpus_sweep(spec["part"], res, only_bucket)
+        return None
     return core.drive(cases(spec["depth"]), check_case, seed, spec["n"], res, only_bucket)
 
 
 def replay(case):
+    if case.get("fixture"):
+        return [("fixture|" + b, d) for b, d in check_case(case, None)]
     return check_case(case, None)
 
 
